@@ -25,6 +25,8 @@ pub mod c14;
 pub mod c15;
 #[cfg(feature = "native")]
 pub mod c16;
+#[cfg(feature = "capi")]
+pub mod c17;
 pub mod c18;
 #[cfg(feature = "native")]
 pub mod c19;
@@ -55,6 +57,8 @@ pub fn lookup(id: &str) -> Option<Box<dyn Check>> {
         "C19" => Some(Box::new(c19::C19)),
         #[cfg(feature = "native")]
         "C16" => Some(Box::new(c16::C16)),
+        #[cfg(feature = "capi")]
+        "C17" => Some(Box::new(c17::C17)),
         "C20" => Some(Box::new(c20::C20)),
         "C18" => Some(Box::new(c18::C18)),
         _ => None,
